@@ -108,10 +108,10 @@ def obligations(tier):
                         bounds=f"n, source chunk, target chunk <= {N}; allowed_mem 0..{MM} bytes (copy chunk between max(source,target) and n); position p",
                         witness_rule=lambda m: m["c"] != m["c2"], **common))
     T = 6 if tier == "quick" else 9
-    for irr in (1, 0):
+    for irr in ((0,) if tier == "quick" else (1, 0)):
         obls.append(Obl(f"grid[rechunk-2d-transpose-multistage,allow_irregular={irr}]",
                         _mk(lambda n, m, c, t, M, mn, irr=irr: SG.b_rechunk_2d_transpose(n, m, c, t, M, mn, irr), ["n", "m", "c", "t", "M", "mn"]),
-                        [("n", 2, T), ("m", 2, T), ("c", 1, T), ("t", 1, T), ("M", 0, 60), ("mn", 0, 8)] + P,
+                        [("n", T if tier == "quick" else 2, T), ("m", T if tier == "quick" else 2, T), ("c", 3 if tier == "quick" else 1, T), ("t", 1, 2 if tier == "quick" else T), ("M", 0, 40 if tier == "quick" else 60), ("mn", 0, 4 if tier == "quick" else 8)] + P,
                         bounds=f"(n, m) <= {T}x{T} int8 array, chunks (c, 1) -> (1, t), allowed_mem 0..60 and min_mem 0..8: tight budgets give multi-stage plans with intermediate arrays (geometry forked by value)",
                         witness_rule=lambda m: True, **common))
     n2 = 4 if tier == "quick" else 6
